@@ -24,7 +24,7 @@ ASSUMPTIONS = ['unknown rate tokens (silently defaulted by the parser) are not g
                'dongle firmware model: SET_RADIO_CHANNEL/ADDRESS/DATA_RATE vendor requests take effect for following transmissions']
 
 RATES = {'250K': 0, '1M': 1, '2M': 2}
-SERIALS = ['FAKE000001', 'E7E7E7E7AB', 'ABCDEF0123']
+SERIALS = ['FAKE000001', 'E7E7E7E7AB', 'ABCDEF0123', '0123456789']     # the last one: a serial number made of decimal digits only
 
 
 def _ref_parse(c):
@@ -139,6 +139,11 @@ def run_connect(case):
         drv = RadioDriver()
         errors = []
         try:
+            # a wrong dongle index is reported here and not handed to the radio manager (which would allocate a slot table up to it)
+            pd = RadioDriver.parse_uri(uri)[0]
+            if pd != want[0]:
+                out.fail('connect:wrong-dongle', '%s names dongle %r, parsed as %r' % (uri, want[0], pd))
+                return out
             drv.connect(uri, None, lambda m: errors.append(m))
         except Exception as e:  # noqa
             out.fail('connect:raises', '%s -> %r' % (uri, e))
